@@ -73,7 +73,7 @@ def check_stacked(stacked_branch, how, split):
     return len(local)
 
 
-tried = 0
+tried = checked = 0
 try:
     src, revs = build_source()
     for split in range(1, N):
@@ -88,7 +88,8 @@ try:
             st = Branch.open(st_dir)
             if how == "commit":
                 st.pull(fb)
-                wt = st.controldir.create_workingtree()
+                wt = st.controldir.open_workingtree()
+                wt.update()
                 for i in range(split, N):
                     open(os.path.join(st_dir, "f%d" % (i % 2)), "w").write("stacked %d\n" % i)
                     wt.commit("s%d" % i, rev_id=b"s%d" % i, committer="t <t@e.x>")
@@ -102,7 +103,7 @@ try:
                     st.repository.fetch(src.branch.repository, revision_id=revs[-1])
                     st.set_last_revision_info(N, revs[-1])
             st = Branch.open(st_dir)
-            check_stacked(st, how, split)
-    verdict(False, "no failing split among %d" % tried)
+            checked += check_stacked(st, how, split)
+    verdict(False, "no failing split among %d (%d revisions held by stacked repositories checked without their fallback)" % (tried, checked))
 finally:
     shutil.rmtree(base, ignore_errors=True)
